@@ -1,0 +1,16 @@
+"""
+Verification hooks (off unless the environment variable ``MLINSIGHTS_VERIF=1``
+is set before the package is imported). A hook appends one event
+``(name, fields)`` to ``SINK`` if a sink (a list) was installed;
+it does no I/O and reads no clock.
+"""
+import os
+
+ENABLED = os.environ.get("MLINSIGHTS_VERIF") == "1"
+SINK = None
+
+
+def emit(event, **fields):
+    "Records one event in the installed sink."
+    if SINK is not None:
+        SINK.append((event, fields))
